@@ -3,10 +3,13 @@ package rules
 import (
 	"fmt"
 	"go/ast"
+	"go/token"
 	"go/types"
 	"strings"
 
 	"golang.org/x/tools/go/packages"
+
+	"golang.org/x/tools/go/cfg"
 
 	"rocheck/internal/check"
 	"rocheck/internal/load"
@@ -260,7 +263,9 @@ func ruleRelease() check.Rule {
 					node := fmt.Sprintf("site#%d", s.ID)
 					switch {
 					case ra.released[node]:
-						if armed {
+						if dropped, at := droppedOnSomePath(m, s); dropped {
+							c.Report(armed, key, s.Pos, "the subscription returned by this %s is released on some paths only: on a path that ends at %s its variable is never stored, handed over, released or captured, so on that path nothing can unsubscribe this source later", s.Method, c.Prog.Rel(at))
+						} else if armed {
 							c.OK(key, s.Pos, "%s", ra.why[node])
 						}
 					case s.Src.Awaited:
@@ -350,6 +355,105 @@ func ruleRelease() check.Rule {
 			unknownsFailClosed(c)
 		},
 	}
+}
+
+// droppedOnSomePath: the result of subscribe site s is bound to a variable local to the enclosing function; reports a
+// path from that binding to the function's exit (or back to the binding, in a loop) on which the variable is never
+// mentioned again outside branch conditions: on that path the subscription is neither stored, handed over, released
+// nor captured, so nothing can release it later.
+func droppedOnSomePath(m *model.Model, s *model.SubSite) (bool, token.Pos) {
+	p := s.Pkg
+	info := p.TypesInfo
+	as, ok := m.Parent(p, s.Call).(*ast.AssignStmt)
+	if !ok || len(as.Lhs) != 1 || len(as.Rhs) != 1 || ast.Unparen(as.Rhs[0]) != ast.Expr(s.Call) {
+		return false, token.NoPos
+	}
+	id, ok := as.Lhs[0].(*ast.Ident)
+	if !ok || id.Name == "_" {
+		return false, token.NoPos
+	}
+	v := objOf(info, id)
+	fn := innermostFunc(m, p, s.Call)
+	body := funcBody(fn)
+	if v == nil || body == nil || !(body.Pos() <= v.Pos() && v.Pos() <= body.End()) {
+		return false, token.NoPos // a variable of an outer function outlives this path: it is a holder
+	}
+	mentions := func(n ast.Node) bool {
+		found := false
+		ast.Inspect(n, func(x ast.Node) bool {
+			if xid, ok := x.(*ast.Ident); ok && objOf(info, xid) == v {
+				found = true
+			}
+			return !found
+		})
+		return found
+	}
+	g := cfg.New(body, func(*ast.CallExpr) bool { return true })
+	var tb *cfg.Block
+	ti := -1
+	for _, b := range g.Blocks {
+		for i, n := range b.Nodes {
+			if n == ast.Node(as) {
+				tb, ti = b, i
+			}
+		}
+	}
+	if tb == nil {
+		return false, token.NoPos
+	}
+	seen := map[int32]bool{}
+	var leak token.Pos
+	var dfs func(b *cfg.Block, from int)
+	dfs = func(b *cfg.Block, from int) {
+		if leak != token.NoPos {
+			return
+		}
+		for i := from; i < len(b.Nodes); i++ {
+			n := b.Nodes[i]
+			if b == tb && i == ti {
+				leak = n.Pos() // back at the binding: the previous value is overwritten
+				return
+			}
+			_, isCond := n.(ast.Expr)
+			if isCond && i == len(b.Nodes)-1 && len(b.Succs) == 2 {
+				continue // a branch condition is not a hand-over
+			}
+			if mentions(n) {
+				return
+			}
+		}
+		if len(b.Succs) == 0 {
+			if len(b.Nodes) > 0 {
+				if es, ok := b.Nodes[len(b.Nodes)-1].(*ast.ExprStmt); ok {
+					if call, ok := es.X.(*ast.CallExpr); ok {
+						if fid, ok := call.Fun.(*ast.Ident); ok && fid.Name == "panic" {
+							return
+						}
+					}
+				}
+				leak = b.Nodes[len(b.Nodes)-1].Pos()
+			} else {
+				leak = body.End()
+			}
+			return
+		}
+		for _, sc := range b.Succs {
+			if sc == tb {
+				// re-entering the binding's block from its start
+				if !seen[-sc.Index-1] {
+					seen[-sc.Index-1] = true
+					dfs(sc, 0)
+				}
+				continue
+			}
+			if !seen[sc.Index] {
+				seen[sc.Index] = true
+				dfs(sc, 0)
+			}
+		}
+	}
+	dfs(tb, ti+1)
+	return leak != token.NoPos, leak
 }
 
 // timerConsumedInPlace: the timer's channel is a case of a select located in the same
